@@ -438,6 +438,43 @@ func ruleC04Analyze(c *Ctx) {
 			eq = v
 		}
 	}
+	if wl := recogniseWorklist(f); wl != nil {
+		// iterative form (explicit stack): a round goes on only for an equality leaf or an AND whose operands are both queued
+		why := append([]string(nil), wl.why...)
+		sawEq, sawAnd := false, false
+		for _, r := range wl.rounds {
+			switch {
+			case strings.HasSuffix(r.kind, "ComparisonExpr"):
+				opEq := false
+				for k, v := range r.p.Asg {
+					kt := r.p.KeyTerm[k]
+					if kt != nil && kt.Op == "bin" && kt.Name == "==" && strings.Contains(kt.String(), ".Operator") && kt.Args[1].Name == fmt.Sprint(eq) && isTrueC(v) {
+						opEq = true
+					}
+				}
+				if !opEq {
+					why = append(why, "a comparison leaf is accepted without its operator being EqualOp")
+				} else {
+					sawEq = true
+				}
+				if !r.popped {
+					why = append(why, "after a comparison the list of pending nodes is "+termStr(r.next))
+				}
+			case strings.HasSuffix(r.kind, "AndExpr"):
+				sawAnd = true
+				if !r.pushesBoth {
+					why = append(why, "AND is accepted without queueing both of its operands (the list becomes "+termStr(r.next)+")")
+				}
+			default:
+				why = append(why, "a "+r.kind+" node is accepted as hash-joinable")
+			}
+		}
+		if !sawEq || !sawAnd {
+			why = append(why, fmt.Sprintf("arms found: equality leaf=%v AND=%v", sawEq, sawAnd))
+		}
+		c.Check(len(why) == 0, "c04.equi-analysis", "hashJoinAnalyze", c.P.Pos(f.Pos()), "worklist form: true only for AND-trees of equalities", strings.Join(uniq(why), "; "))
+		return
+	}
 	paths, err := WalkFunc(f, WalkCfg{MaxVisits: 1})
 	if err != nil {
 		c.Unknown("c04.equi-analysis", "hashJoinAnalyze", c.P.Pos(f.Pos()), err.Error())
@@ -628,7 +665,7 @@ func ruleC04KeyEncoding(c *Ctx) {
 						reader = &Term{Op: "call", V: call}
 					}
 				}
-			case e.Kind == "call" && strings.Contains(e.Callee, "bytes.Buffer).WriteString"):
+			case e.Kind == "call" && isTextBufferWrite(e.Callee) && !strings.HasSuffix(e.Callee, ").Write"):
 				a := e.Args[len(e.Args)-1]
 				isText := func(t *Term) bool {
 					sa, ok := callArgs(t, "fmt.Sprintf")
@@ -647,15 +684,19 @@ func ruleC04KeyEncoding(c *Ctx) {
 					lens++
 					order = append(order, "l")
 				} else if ia, ok := callArgs(a, "strconv.Itoa"); ok && len(ia) == 1 && isLenOfText(ia[0]) {
+					// the bare digits of the length: self-delimiting only with a non-digit constant written right after
 					lens++
-					order = append(order, "l")
-				} else if a.Op == "const" && len(a.Name) > 2 {
+					order = append(order, "L")
+				} else if nonDigitConst(a) {
 					seps++
 					order = append(order, "s")
+				} else if a.Op == "const" {
+					seps++
+					order = append(order, "d") // a constant that starts with a digit: no terminator for a length
 				} else {
 					why = append(why, "an unexpected write into the key buffer: "+a.String())
 				}
-			case e.Kind == "call" && (strings.Contains(e.Callee, "Fprint") || strings.Contains(e.Callee, "bytes.Buffer).Write")):
+			case e.Kind == "call" && (strings.Contains(e.Callee, "Fprint") || isTextBufferWrite(e.Callee)):
 				why = append(why, "the key buffer is written by "+e.Callee+" (not one value text plus one separator per column)")
 			case e.Kind == "mapupdate":
 				stores++
@@ -668,7 +709,7 @@ func ruleC04KeyEncoding(c *Ctx) {
 			why = append(why, "the column's value is not read from the row")
 		}
 		switch o := strings.Join(order, ""); {
-		case vals == 1 && lens == 1 && (o == "lv" || o == "lsv"):
+		case vals == 1 && lens == 1 && (o == "lv" || o == "lsv" || o == "Lsv"):
 			// length-prefixed component: injective
 		case vals == 1 && lens == 0 && (o == "vs" || o == "sv"):
 			why = append(why, "a key component is its %v text next to a constant separator: a value that contains the separator shifts the boundary ((\"2024-01\",\"15\") and (\"2024\",\"01-15\") share a bucket) — the component must be self-delimiting (length prefix)")
@@ -683,6 +724,39 @@ func ruleC04KeyEncoding(c *Ctx) {
 		why = append(why, "no complete column iteration")
 	}
 	c.Check(len(why) == 0, "c04.key-encoding", key, c.P.Pos(f.Pos()), "value text then separator per column; key map holds the same value", strings.Join(uniq(why), "; "))
+}
+
+// isTextBufferWrite: a write method of a text buffer (bytes.Buffer or strings.Builder).
+func isTextBufferWrite(callee string) bool {
+	if !(strings.Contains(callee, "bytes.Buffer).") || strings.Contains(callee, "strings.Builder).")) {
+		return false
+	}
+	for _, m := range []string{").WriteString", ").WriteByte", ").WriteRune", ").Write"} {
+		if strings.HasSuffix(callee, m) {
+			return true
+		}
+	}
+	return false
+}
+
+// nonDigitConst: a constant text (or character) that does not start with a decimal digit.
+func nonDigitConst(t *Term) bool {
+	if t == nil || t.Op != "const" {
+		return false
+	}
+	k, ok := t.V.(*ssa.Const)
+	if !ok || k.Value == nil {
+		return false
+	}
+	switch k.Value.Kind() {
+	case constant.String:
+		s := constant.StringVal(k.Value)
+		return len(s) > 0 && !(s[0] >= '0' && s[0] <= '9')
+	case constant.Int:
+		v, exact := constant.Int64Val(k.Value)
+		return exact && !(v >= '0' && v <= '9')
+	}
+	return false
 }
 
 // ruleC04FreshRows: every emitted row is a map allocated for that emission.
